@@ -284,6 +284,14 @@ def run_files(binary, kind, files, argv_tokens, workdir, run_id, schema, asuser=
                     raise vlib.InfraError("unparsable shim/hook line in %s: %r" % (logp, line))
     # what is left where the run was told to write (its own input files are not output)
     if outd == fx.ind:
+        # output directory = input directory: calls on the case's input files belong to class "in"
+        cnt = {"in": 0, "out": 0}
+        for e in logged:
+            if e.get("ev") == "sys":
+                if e["path"] in files or e["path"] == "second.xml":
+                    e["cls"] = "in"
+                cnt[e["cls"]] += 1
+                e["k"] = cnt[e["cls"]]
         tree = {k: v for k, v in sr.tree_state(outd).items() if k not in files and k != "second.xml"}
     else:
         tree = sr.tree_state(outd) if os.path.isdir(outd) else {}
@@ -502,6 +510,7 @@ def run(v, tier, seed):
                 raise vlib.InfraError("case without the verdict `graceful`: %s" % json.dumps(rec)[:300])
             jobs.append(Job("%s-%05d" % (name, i), case_head(rec), label(rec), base=name, case=rec))
     v.part("tlc", wall_s=round(time.time() - t0, 1), bases=[n for n, _ in bs])
+    vlib.log("C09: TLC generated %d cases in %.0f s" % (len(jobs), time.time() - t0))
     jobs += corpus_jobs()
     second_xml = sch.to_xml(gg.bases("quick")[0][1]).replace('package="c09"', 'package="c09second"')
 
